@@ -13,9 +13,32 @@ FILES = {}
 DATASETS = {}
 
 
+class AmbiguousTruth(object):
+    """result of comparing an array of several elements with a scalar: fine as a value, an error as a truth value (numpy)"""
+    def __bool__(self):
+        raise ValueError('The truth value of an array with more than one element is ambiguous. Use a.any() or a.all()')
+
+
+class NdSeq(list):
+    """a sequence of numbers as it comes back from an HDF5 attribute: a numpy array - equal to the list it was written from, but `== <scalar>` is element-wise"""
+    def __eq__(self, other):
+        if isinstance(other, (list, tuple)):
+            return list.__eq__(self, list(other))
+        return AmbiguousTruth() if len(self) > 1 else (len(self) == 1 and self[0] == other)
+
+    def __ne__(self, other):
+        r = self.__eq__(other)
+        return r if isinstance(r, AmbiguousTruth) else not r
+    __hash__ = None
+
+
 class H5Attrs(dict):
-    """attrs of a group / dataset: a dictionary, plus create(name, data, shape=None, dtype=None) which stores the value *converted* to the given type"""
-    pass
+    """attrs of a group / dataset: a dictionary, plus create(name, data, shape=None, dtype=None) which stores the value *converted* to the given type; a sequence of numbers
+    is stored as an array"""
+    def __setitem__(self, k, v):
+        if isinstance(v, (list, tuple)) and len(v) > 1 and all(isinstance(x, (int, float)) and not isinstance(x, bool) for x in v):
+            v = NdSeq(v)
+        dict.__setitem__(self, k, v)
 
 
 F8 = ('f8', '<f8', 'float64', 'double', 'float', 'd')
